@@ -92,6 +92,9 @@ pub struct RawReq {
     pub pid: IdForm,
     pub ct: CtForm,
     pub body: BodyForm,
+    /// send a Content-Length header with the body length (a real unchunked upload does)
+    #[serde(default)]
+    pub announce_len: bool,
 }
 
 #[derive(Clone, Copy, Debug, PartialEq, Eq, Hash)]
@@ -256,6 +259,9 @@ pub fn build(r: &RawReq, client: Uuid, other: Uuid, id: Uuid) -> Built {
             (b, c)
         }
     };
+    if r.announce_len && !chunks.is_empty() {
+        headers.push(("Content-Length".into(), body.len().to_string().into_bytes()));
+    }
     if endpoint.is_some() {
         let c = id_form_class(r.cid);
         if c == Expect::Refuse {
@@ -371,7 +377,7 @@ pub fn rawreq(n: u8) -> impl Strategy<Value = RawReq> {
         2 => (0u8..10).prop_map(Route::NearMiss),
         1 => (0u8..4).prop_map(Route::TrailingSlash),
     ];
-    (route, 0u8..100, 0..n, idform_header(), any_idref(n), idform_path(), ctform(), bodyform()).prop_map(|(route, m, client, cid, idref, pid, ct, body)| {
+    (route, 0u8..100, 0..n, idform_header(), any_idref(n), idform_path(), ctform(), bodyform(), any::<bool>()).prop_map(|(route, m, client, cid, idref, pid, ct, body, announce_len)| {
         // the right method most of the time
         let method = if m < 72 {
             match route {
@@ -382,7 +388,7 @@ pub fn rawreq(n: u8) -> impl Strategy<Value = RawReq> {
             m % 7
         };
         // an own-latest parent most of the time for writes by construction of any_idref
-        RawReq { route, method, client, cid, idref, pid, ct, body }
+        RawReq { route, method, client, cid, idref, pid, ct, body, announce_len }
     })
 }
 
@@ -442,6 +448,11 @@ fn c20_check(what: &str, req: &HttpReq, r: &HttpResp, st: &mut Stats) -> CheckRe
 enum Mode {
     C15,
     C20,
+}
+
+/// Entry for the libFuzzer target.
+pub fn fuzz_check_raw(rc: &RCase, c20: bool, st: &mut Stats) -> CheckResult {
+    check_raw(rc, if c20 { Mode::C20 } else { Mode::C15 }, st)
 }
 
 /// Run the prefix history through HTTP, then the raw requests; apply the C15 or the C20 oracle.
